@@ -34,8 +34,8 @@ Local Open Scope N_scope.
 (* ------------------------------------------------------------------------------------------ *)
 
 (* the payload of a chunk, as chunk_bytes reads it *)
-Definition strT (h : addr -> option cell) (c : addr) (bs : list N) : Prop :=
-  exists rc text data, h c = Some (CItem rc (NStr text data bs)) /\ (len bs = 0 \/ data_live h data).
+Definition strT (h : addr -> option cell) (text : bool) (c : addr) (bs : list N) : Prop :=
+  exists rc data, h c = Some (CItem rc (NStr text data bs)) /\ (len bs = 0 \/ data_live h data).
 
 Definition pairT (T : addr -> item -> Prop) (kv : addr * option addr) (kv' : item * item) : Prop :=
   T (fst kv) (fst kv') /\ exists v, snd kv = Some v /\ T v (snd kv').
@@ -53,7 +53,7 @@ Fixpoint tree (f : nat) (h : addr -> option cell) (a : addr) (t : item) : Prop :
       | NStr text data bytes => (len bytes = 0 \/ data_live h data) /\ t = (if text then IText bytes else IBytes bytes)
       | NChunked text hdr arr _ chunks =>
           data_live h (Some hdr) /\ (chunks = [] \/ data_live h arr) /\
-          exists cs, Forall2 (strT h) chunks cs /\ t = (if text then ITextI cs else IBytesI cs)
+          exists cs, Forall2 (strT h text) chunks cs /\ t = (if text then ITextI cs else IBytesI cs)
       | NArr indef data _ elems =>
           (elems = [] \/ data_live h data) /\
           exists xs, Forall2 (tree f' h) elems xs /\ t = IArray indef xs
@@ -105,15 +105,15 @@ Proof.
     split; [exact Hw2|constructor; assumption].
 Qed.
 
-Lemma chunk_bytes_strT c w bs w' : chunk_bytes c w = Ret bs w' -> heap w' = heap w /\ strT (heap w) c bs.
+Lemma chunk_bytes_strT tx c w bs w' : chunk_bytes tx c w = Ret bs w' -> heap w' = heap w /\ strT (heap w) tx c bs.
 Proof.
   unfold chunk_bytes. intros H. apply bind_inv in H. destruct H as ([rc n] & w1 & H1 & H).
   apply rd_item_ret in H1. destruct H1 as [Ea ->]. cbn [snd] in H.
   destruct n as [neg iw v|fw bits|v|text data bytes|text hdr arr cap chunks|indef data al elems|indef data al pairs|v ch];
-    try discriminate H.
+    try discriminate H; destruct (Bool.eqb_spec text tx) as [->|Ne]; try discriminate H.
   apply bind_inv in H. destruct H as (u & w2 & H2 & H). apply ret_inv in H. destruct H as [-> ->].
   apply str_guard_inv in H2. destruct H2 as [Hh G]. cbn [heap HRef_proofs.w_rd] in *.
-  split; [exact Hh|]. exists rc, text, data. auto.
+  split; [exact Hh|]. exists rc, data. auto.
 Qed.
 
 Theorem abs_tree : forall f a w t w', abs f a w = Ret t w' -> heap w' = heap w /\ tree f (heap w) a t.
@@ -134,7 +134,7 @@ Proof.
     apply bind_inv in H. destruct H as (u3 & w3 & H3 & H). apply guard_inv in H3. destruct H3 as [Hh3 G3].
     apply bind_inv in H. destruct H as (cs & w4 & H4 & H). apply ret_inv in H. destruct H as [-> ->].
     assert (Hw3 : heap w3 = heap w) by congruence.
-    destruct (mapM_F2 chunk_bytes (strT (heap w)) (heap w) chunks w3 cs w4 Hw3) as [Hw4 F]; [|exact H4|].
+    destruct (mapM_F2 (chunk_bytes text) (strT (heap w) text) (heap w) chunks w3 cs w4 Hw3) as [Hw4 F]; [|exact H4|].
     { intros x w0 y w0' _ Hq E. apply chunk_bytes_strT in E. destruct E as [E1 E2]. rewrite Hq in *. auto. }
     split; [exact Hw4|]. exists rc, (NChunked text hdr arr cap chunks). split; [exact Ea|].
     rewrite Hw1 in G2. rewrite Hh2, Hw1 in G3. split; [exact G2|]. split; [exact G3|]. exists cs. auto.
@@ -188,10 +188,10 @@ Proof.
   eapply totv_bind; [exact Hx|]. eapply totv_bind; [exact IH|]. apply totv_ret.
 Qed.
 
-Lemma strT_totv h c bs : strT h c bs -> totv h (chunk_bytes c) bs.
+Lemma strT_totv h tx c bs : strT h tx c bs -> totv h (chunk_bytes tx c) bs.
 Proof.
-  intros (rc & text & data & Ec & G). unfold chunk_bytes.
-  eapply totv_rd; [exact Ec|]. cbn [snd]. eapply totv_bind; [apply totv_of_tot, tot_str_guard, G|]. apply totv_ret.
+  intros (rc & data & Ec & G). unfold chunk_bytes.
+  eapply totv_rd; [exact Ec|]. cbn [snd]. rewrite Bool.eqb_reflx. eapply totv_bind; [apply totv_of_tot, tot_str_guard, G|]. apply totv_ret.
 Qed.
 
 Theorem tree_abs h : forall f a t, tree f h a t -> totv h (abs f a) t.
@@ -296,9 +296,9 @@ Proof.
     split; [apply DL; [intros d E; injection E as <-; left; reflexivity|exact Rh]|].
     split; [destruct Ra as [Ra|Ra]; [left; exact Ra|right; apply DL; [intros d ->; right; left; reflexivity|exact Ra]]|].
     exists cs. split; [|reflexivity].
-    eapply F2_impl_in; [|exact Rc]. intros c bs Hc _ (rcc & tc & dc & Ec & Gc).
+    eapply F2_impl_in; [|exact Rc]. intros c bs Hc _ (rcc & dc & Ec & Gc).
     destruct (same_cell_item h h' c _ _ (Kid c c Hc (reach_self h c)) Ec) as (rcc' & Ec').
-    exists rcc', tc, dc. split; [exact Ec'|]. destruct Gc as [Gc|Gc]; [left; exact Gc|right].
+    exists rcc', dc. split; [exact Ec'|]. destruct Gc as [Gc|Gc]; [left; exact Gc|right].
     eapply same_cell_data; [|exact Gc]. intros d ->. apply (Kid c d Hc).
     eapply reach_block; [apply reach_self|exact Ec|left; reflexivity].
   - destruct R as (Rd & xs & Re & ->).
@@ -352,7 +352,7 @@ Qed.
 Definition chunked_item (text : bool) (cs : list (list N)) : item := if text then ITextI cs else IBytesI cs.
 Lemma tree_chunked_inv h f a text cs : tree (S f) h a (chunked_item text cs) ->
   exists rc hdr arr cap chunks, h a = Some (CItem rc (NChunked text hdr arr cap chunks)) /\
-    data_live h (Some hdr) /\ (chunks = [] \/ data_live h arr) /\ Forall2 (strT h) chunks cs.
+    data_live h (Some hdr) /\ (chunks = [] \/ data_live h arr) /\ Forall2 (strT h text) chunks cs.
 Proof.
   intros (rc & n & Ea & R). unfold chunked_item in R.
   destruct n as [neg iw v|fw bits|v|text0 data bytes|text0 hdr arr cap chunks|ind data al elems|ind data al pairs|v c].
@@ -367,27 +367,20 @@ Proof.
   - destruct R as (x0 & tx0 & _ & _ & R). destruct text; discriminate R.
 Qed.
 
-Lemma tree_str_strT h f x bs : tree f h x (IText bs) \/ tree f h x (IBytes bs) -> strT h x bs.
+Lemma tree_str_strT h f x (text : bool) bs : tree f h x (if text then IText bs else IBytes bs) -> strT h text x bs.
 Proof.
-  intros T. destruct f as [|f]; [destruct T as [[]|[]]|].
-  assert (H : exists rc n, h x = Some (CItem rc n) /\ exists t, (t = IText bs \/ t = IBytes bs) /\
-            match n with
-            | NStr text data bytes => (len bytes = 0 \/ data_live h data) /\ t = (if text then IText bytes else IBytes bytes)
-            | _ => False
-            end).
-  { destruct T as [(rc & n & E & R)|(rc & n & E & R)]; exists rc, n; (split; [exact E|]);
-      [exists (IText bs)|exists (IBytes bs)]; (split; [auto|]);
-      destruct n as [neg iw v|fw bits|v|text data bytes|text hdr arr cap chunks|ind data al elems|ind data al pairs|v c];
-      try exact R; try (destruct neg; discriminate R); try discriminate R;
-      try (destruct R as (_ & _ & cs0 & _ & R); destruct text; discriminate R);
-      try (destruct R as (_ & z & _ & R); discriminate R);
-      try (destruct R as (z1 & z2 & _ & _ & R); discriminate R). }
-  destruct H as (rc & n & E & t & Ht & R).
-  destruct n as [neg iw v|fw bits|v|text data bytes|text hdr arr cap chunks|ind data al elems|ind data al pairs|v c];
-    try (exfalso; exact R).
-  destruct R as [G R].
-  assert (Hb : bytes = bs) by (destruct Ht as [Ht|Ht]; subst t; destruct text; try discriminate R; injection R as R; congruence).
-  subst bytes. exists rc, text, data. split; [exact E|exact G].
+  intros T. destruct f as [|f]; [destruct T|]. destruct T as (rc & n & E & R).
+  destruct n as [neg iw v|fw bits|v|t data bytes|t hdr arr cap chunks|ind data al elems|ind data al pairs|v c].
+  - destruct neg, text; discriminate R.
+  - destruct text; discriminate R.
+  - destruct text; discriminate R.
+  - destruct R as [G R]. exists rc, data.
+    assert (t = text /\ bytes = bs) as [-> ->] by (destruct t, text; try discriminate R; injection R as ->; auto).
+    auto.
+  - destruct R as (_ & _ & cs0 & _ & R). destruct t, text; discriminate R.
+  - destruct R as (_ & z & _ & R). destruct text; discriminate R.
+  - destruct R as (_ & z & _ & R). destruct text; discriminate R.
+  - destruct R as (z1 & z2 & _ & _ & R). destruct text; discriminate R.
 Qed.
 
 (* ------------------------------------------------------------------------------------------ *)
@@ -799,11 +792,11 @@ Qed.
 
 
 (* ---- cbor_bytestring_add_chunk / cbor_string_add_chunk ---- *)
-Lemma strT_transfer h h' c bs : (forall b, reachh h c b -> same_cell h h' b) -> strT h c bs -> strT h' c bs.
+Lemma strT_transfer h h' tx c bs : (forall b, reachh h c b -> same_cell h h' b) -> strT h tx c bs -> strT h' tx c bs.
 Proof.
-  intros S (rc & text & data & Ec & G).
+  intros S (rc & data & Ec & G).
   destruct (same_cell_item h h' c _ _ (S c (reach_self h c)) Ec) as (rc' & Ec').
-  exists rc', text, data. split; [exact Ec'|]. destruct G as [G|G]; [left; exact G|right].
+  exists rc', data. split; [exact Ec'|]. destruct G as [G|G]; [left; exact G|right].
   eapply same_cell_data; [|exact G]. intros d ->. apply S. eapply reach_block; [apply reach_self|exact Ec|left; reflexivity].
 Qed.
 
@@ -824,23 +817,23 @@ Proof.
 Qed.
 
 Theorem tree_after_add_chunk a x w' f text cs bs :
-  tree f (heap w) a (chunked_item text cs) -> strT (heap w) x bs -> a <> x ->
+  tree f (heap w) a (chunked_item text cs) -> strT (heap w) text x bs -> a <> x ->
   add_chunk refuse a x w = Ret true w' ->
   tree f (heap w') a (chunked_item text (cs ++ [bs])).
 Proof.
   intros Ta Sx Hax E.
   destruct f as [|f]; [destruct Ta|].
   destruct (tree_chunked_inv _ _ _ _ _ Ta) as (rc & hdr & arr & cap & chunks & Ea & Rh & Ra & Rc).
-  pose proof Sx as (rcx & textx & datax & Ex & Gx).
+  pose proof Sx as (rcx & datax & Ex & Gx).
   pose proof (C0 a rc _ Ea) as Cap. cbn [node_ok] in Cap.
   destruct (G_block own ownd w I0 a rc _ hdr Ea ltac:(left; reflexivity)) as [Hh _].
   assert (Hdh : arr <> Some hdr).
   { intros ->. pose proof (Inv_blocks _ _ _ _ _ _ I0 Ea hdr) as Hb. cbn [HRef_proofs.dblocks HRef_proofs.opt_list app] in Hb.
     destruct (Hb ltac:(left; reflexivity)) as [_ Ch]. cbn [cnt] in Ch. rewrite N.eqb_refl in Ch. lia. }
   assert (P : gpush_post a rc (fun d' c' => NChunked text hdr d' c' (chunks ++ [x])) (fun d' c' => capinvC d' c' (chunks ++ [x]))
-                w x arr rcx (NStr textx datax bs) true w').
+                w x arr rcx (NStr text datax bs) true w').
   { eapply wp_det; [|exact E].
-    eapply (add_chunk_gen refuse text hdr a w x arr cap chunks rc rcx _ Hwf Ea Hh); [|exact Hdh|exact Cap|exact Ex|exact Hax].
+    eapply (add_chunk_gen refuse text hdr a w x arr cap chunks rc rcx _ Hwf Ea Hh); [|exact Hdh|exact Cap|exact Ex|apply chunk_ok_str|exact Hax].
     intros b ->. eapply block_is_data; [exact Ea|right; left; reflexivity]. }
   destruct (gpush_true_facts a rc _ _ _ w x arr rcx _ w' Hwf Ea Ex Hax P) as (d' & c' & Cap' & Ea' & MF & Hd').
   assert (Hbl : forall d, In d (HCont_proofs.opt_list arr) -> In d (node_blocks (NChunked text hdr arr cap chunks))).
@@ -862,7 +855,7 @@ Proof.
   - exists (cs ++ [bs]). split; [|destruct text; reflexivity]. apply F2_app.
     + eapply F2_impl_in; [|exact Rc]. intros c y Hc _ Tc. eapply strT_transfer; [|exact Tc].
       eapply (unaffected own ownd w I0 w' a rc _ _ c Ea Hbl MF).
-      * destruct Tc as (rcc & tc & dc & Ec & _). eauto.
+      * destruct Tc as (rcc & dc & Ec & _). eauto.
       * eapply kid_not_above; [exact I0|exact Rk|exact Ea|exact Hc].
     + constructor; [|constructor]. eapply strT_transfer; [|exact Sx].
       eapply (unaffected own ownd w I0 w' a rc _ _ x Ea Hbl MF); [eauto|].
@@ -970,11 +963,11 @@ Proof.
     split; [apply DL; [intros d E; injection E as <-; left; reflexivity|exact Rh]|].
     split; [destruct Ra as [Ra|Ra]; [left; exact Ra|right; apply DL; [intros d ->; right; left; reflexivity|exact Ra]]|].
     exists cs. split; [|reflexivity].
-    eapply F2_impl_in; [|exact Rc]. intros c bs Hc _ (rcc & tc & dc & Ec & Gc).
+    eapply F2_impl_in; [|exact Rc]. intros c bs Hc _ (rcc & dc & Ec & Gc).
     destruct (Kid c Hc) as [Lc Nc].
     assert (Hca : c <> a) by (intros ->; apply Nc; apply reach_self).
     destruct (sub_node c _ _ Hca Ec Lc) as (rcc' & Ec').
-    exists rcc', tc, dc. split; [exact Ec'|]. destruct Gc as [Gc|Gc]; [left; exact Gc|right].
+    exists rcc', dc. split; [exact Ec'|]. destruct Gc as [Gc|Gc]; [left; exact Gc|right].
     destruct Gc as (d & sz & -> & _).
     destruct (G_block own' ownd' w' I1 c rcc' _ d Ec' ltac:(left; reflexivity)) as [(sz' & Ed) _]. exists d, sz'. auto.
   - destruct R as (Rd & xs & Re & ->).
@@ -1155,10 +1148,10 @@ Proof.
 Qed.
 
 Lemma add_chunk_frame a x b w' rc text hdr d c l rcx nx :
-  heap w a = Some (CItem rc (NChunked text hdr d c l)) -> heap w x = Some (CItem rcx nx) -> a <> x ->
+  heap w a = Some (CItem rc (NChunked text hdr d c l)) -> heap w x = Some (CItem rcx nx) -> chunk_ok text nx -> a <> x ->
   add_chunk refuse a x w = Ret b w' -> mut_frame w w' a (HCont_proofs.opt_list d).
 Proof.
-  intros Ea Ex Hax E. destruct b.
+  intros Ea Ex Hkx Hax E. destruct b.
   - pose proof (C0 a rc _ Ea) as Cap. cbn [node_ok] in Cap.
     destruct (G_block own ownd w I0 a rc _ hdr Ea ltac:(left; reflexivity)) as [Hh _].
     assert (Hdh : d <> Some hdr).
@@ -1167,7 +1160,7 @@ Proof.
     assert (P : gpush_post a rc (fun d' c' => NChunked text hdr d' c' (l ++ [x])) (fun d' c' => capinvC d' c' (l ++ [x]))
                   w x d rcx nx true w').
     { eapply wp_det; [|exact E].
-      eapply (add_chunk_gen refuse text hdr a w x d c l rc rcx nx Hwf Ea Hh); [|exact Hdh|exact Cap|exact Ex|exact Hax].
+      eapply (add_chunk_gen refuse text hdr a w x d c l rc rcx nx Hwf Ea Hh); [|exact Hdh|exact Cap|exact Ex|exact Hkx|exact Hax].
       intros o ->. destruct (G_block own ownd w I0 a rc _ o Ea ltac:(right; left; reflexivity)) as [X _]. exact X. }
     destruct (gpush_true_facts a rc _ _ _ w x d rcx nx w' Hwf Ea Ex Hax P) as (d' & c' & _ & _ & MF & _). exact MF.
   - destruct (add_chunk_false refuse a x w w' E) as [H _]. intros q _ _ _. apply same_cell_eq. rewrite H. reflexivity.
@@ -1292,11 +1285,18 @@ Theorem abs_after_add_chunk : forall s own ownd w hc hx a x s' b w' text cs bs w
 Proof.
   intros s own ownd w hc hx a x s' b w' text cs bs wa wx I0 C0 AC Lg Bl Ha Hx Aa Ax E.
   destruct (after_step s own ownd w _ s' _ w' I0 C0 AC Lg Bl E) as (I1 & _ & AC1).
-  destruct (Lg a x Ha Hx) as (_ & _ & Hax & _).
+  destruct (Lg a x Ha Hx) as (_ & _ & Hax & _ & (rc0 & text0 & hdr0 & d0 & c0 & l0 & Ea0 & (rcq & dq & bq & Eq0))).
   destruct (Bl a x Ha Hx) as (rank & Rk & Hlt).
   apply abs_of_tree in Aa.
-  assert (Sx : strT (heap w) x bs).
-  { apply (tree_str_strT (heap w) (abs_fuel w)). destruct Ax as [Ax|Ax]; apply abs_of_tree in Ax; auto. }
+  assert (Ett : text0 = text).
+  { pose proof Aa as Aa1. unfold abs_fuel in Aa1. destruct (tree_chunked_inv _ _ _ _ _ Aa1) as (rc1 & hdr1 & arr1 & cap1 & ch1 & Ea1 & _).
+    rewrite Ea0 in Ea1. injection Ea1 as _ -> _ _ _ _. reflexivity. }
+  subst text0.
+  assert (Sx : strT (heap w) text x bs).
+  { apply (tree_str_strT (heap w) (abs_fuel w)).
+    destruct Ax as [Ax|Ax]; apply abs_of_tree in Ax; pose proof Ax as Ax1; unfold abs_fuel in Ax1;
+      destruct Ax1 as (rcx & nx & Ex & R); rewrite Eq0 in Ex; injection Ex as _ <-;
+      destruct R as [_ R]; destruct text; try discriminate R; exact Ax. }
   cbn [step] in E. unfold with2 in E. rewrite Ha, Hx in E. apply bind_inv in E. destruct E as (b0 & w1 & E1 & E).
   apply ret_inv in E. destruct E as [E ->]. injection E as -> ->.
   destruct b0.
@@ -1594,12 +1594,11 @@ Proof.
     + eapply (map_add_frame refuse own ownd w I0 C0 a q rr b w1 rc ind d c l rcq nq rcr nr Ea Eq Er Haq Har E1).
   - (* add_chunk *)
     unfold with2 in E. rewrite Hm in E. destruct (hget s c) as [q|] eqn:Hx; [|left; eapply skipped; exact E].
-    destruct (Lg a q Hm eq_refl) as (_ & Oq & Haq & _ & (rc & text & hdr & d & cp & l & Ea)).
-    destruct (Inv_owned_item _ _ _ _ I0 Oq) as (rcq & nq & Eq & _).
+    destruct (Lg a q Hm eq_refl) as (_ & Oq & Haq & _ & (rc & text & hdr & d & cp & l & Ea & (rcq & dq & bq & Eq))).
     apply bind_inv in E. destruct E as (b & w1 & E1 & E). apply ret_inv in E. destruct E as [_ ->].
     right. exists rc, (NChunked text hdr d cp l), (HCont_proofs.opt_list d). split; [exact Ea|]. split.
     + intros o Ho. cbn [node_blocks]. right. destruct d; [exact Ho|destruct Ho].
-    + eapply (add_chunk_frame refuse own ownd w I0 C0 a q b w1 rc text hdr d cp l rcq nq Ea Eq Haq E1).
+    + eapply (add_chunk_frame refuse own ownd w I0 C0 a q b w1 rc text hdr d cp l rcq _ Ea Eq (chunk_ok_str text dq bq) Haq E1).
   - (* tag_set_item *)
     unfold with2 in E. rewrite Hm in E. destruct (hget s x) as [q|] eqn:Hx; [|left; eapply skipped; exact E].
     destruct (Lg a q Hm eq_refl) as (_ & Oq & Haq & _ & (rc & v & Ea)).
